@@ -29,6 +29,7 @@ func init() {
 			{ID: "R13d", Floor: 20, Doc: "section lengths bounded by the section limit, header by the header limit (= R09c)", Run: ruleR09c},
 			{ID: "R13h", Floor: 2, Doc: "Inspect scans exactly the payload window DataOffset..DataOffset+DataSize (= R10d)", Run: ruleR10d},
 			{ID: "R13i", Floor: 1, Doc: "Inspect and the block reader run under the same options: nothing rewrites an option after ApplyOptions (= R04j)", Run: ruleR04j},
+			{ID: "R13j", Floor: 1, Doc: "Header.HasIndex means exactly `IndexOffset != 0`: Inspect, the readers and verify decide by it whether an index must be readable; an offset that is set but implausible is an error to report, not an absent index", Run: ruleR13j},
 		},
 	})
 }
@@ -583,4 +584,34 @@ func ruleR13g(c *Ctx, r *Report) {
 		}
 	}
 	r.Check(bad == "", key, c.Pos(cmp.Pos()), fmt.Sprintf("%d increment(s), each gated by and consuming a per-root latch", len(incs)), bad)
+}
+
+func ruleR13j(c *Ctx, r *Report) {
+	fn, err := c.Func(modV2, "Header", "HasIndex")
+	if err != nil {
+		r.InfraFail("%v", err)
+		return
+	}
+	key := "has-index-definition@" + fnKey(fn)
+	bad := ""
+	rets := returnsOf(fn)
+	if len(rets) != 1 {
+		bad = "HasIndex has more than one outcome"
+	} else {
+		b, ok := canon(rets[0].Results[0]).(*ssa.BinOp)
+		k, isK := int64(1), false
+		if ok {
+			k, isK = constInt(b.Y)
+		}
+		fv, _ := fieldOfLoad(canon(func() ssa.Value {
+			if ok {
+				return b.X
+			}
+			return rets[0].Results[0]
+		}()))
+		if !ok || b.Op != token.NEQ || !isK || k != 0 || fv == nil || fv.Name() != "IndexOffset" {
+			bad = "HasIndex is not `h.IndexOffset != 0`"
+		}
+	}
+	r.Check(bad == "", key, c.Pos(fn.Pos()), "IndexOffset != 0", bad+": a header whose index offset is set but wrong then counts as index-less, and Inspect/readers skip the index instead of failing on it")
 }
